@@ -402,7 +402,11 @@ class C37(dst.Check):
         def zero_count_collective(plan, cls, msg):
             return any(e['t'] == 'coll' and e['k'] in ('gather', 'scatter', 'allgather', 'alltoall', 'bcast', 'reduce', 'allreduce',
                                                       'scan', 'exscan') and e['n'] == 0 for e in plan['events'])
-        return dict(zero_count_collective=zero_count_collective, scan=coll('scan'), exscan=coll('exscan'))
+        def alltoall_bruck_replay(plan, cls, msg):
+            return cls == 'replay_crash' and plan['cfg'].get('smpi/alltoall') == 'bruck' and \
+                any(e['t'] == 'coll' and e['k'] == 'alltoall' for e in plan['events'])
+        return dict(zero_count_collective=zero_count_collective, scan=coll('scan'), exscan=coll('exscan'),
+                    alltoall_bruck_replay=alltoall_bruck_replay)
 
 
 CHECK = C37()
